@@ -85,23 +85,8 @@ Proof.
   destruct zs as [|z zs']; [reflexivity|]. rewrite canon_int_fix; [reflexivity|apply E2; discriminate].
 Qed.
 
-(* subtraction: the accumulator is operand 0, but on the fixnum path nothing is written into it *)
-Lemma fold_sub_fix zs : forall a op0, prefixes_in64 Z.sub a zs = true ->
-  fold_left sub2 (map VFix zs) (VFix a, true, op0) =
-    match zs with [] => (VFix a, true, op0) | _ => (VFix (fold_left Z.sub zs a), false, op0) end /\
-  (zs <> [] -> in64 (fold_left Z.sub zs a) = true).
-Proof.
-  assert (G : forall l a b op0, prefixes_in64 Z.sub a l = true ->
-            fold_left sub2 (map VFix l) (VFix a, b, op0) =
-              match l with [] => (VFix a, b, op0) | _ => (VFix (fold_left Z.sub l a), false, op0) end /\
-            (l <> [] -> in64 (fold_left Z.sub l a) = true)).
-  { clear zs. induction l as [|z zs IH]; intros a b op0 H; cbn in *; [split; [reflexivity|congruence]|].
-    apply andb_true_iff in H as [H1 H2]. rewrite (wrap64_id _ H1).
-    destruct (IH (a - z) false op0 H2) as [E1 E2]. rewrite E1. split.
-    - destruct zs; reflexivity.
-    - intros _. destruct zs; [exact H1|apply E2; discriminate]. }
-  intros a op0. apply G.
-Qed.
+Lemma sub2_fix a z : sub2 (VFix a) (VFix z) = VFix (wrap64 (a - z)).
+Proof. reflexivity. Qed.
 
 Lemma sub_exact args : in_domain OSub args = true -> s_out OSub args = Some (m_op OSub args).
 Proof.
@@ -110,7 +95,7 @@ Proof.
   destruct zs as [|a [|b rest]]; [discriminate| |].
   - cbn [map m_sub neg1 s_op fst snd]. rewrite (wrap64_id _ Hp), canon_one, (canon_int_fix _ Hp). reflexivity.
   - cbn [map m_sub]. change (VFix b :: map VFix rest) with (map VFix (b :: rest)).
-    destruct (fold_sub_fix (b :: rest) a (VFix a) Hp) as [E1 E2]. rewrite E1.
+    destruct (fold_fix Z.sub sub2 sub2_fix (b :: rest) a Hp) as [E1 E2]. rewrite E1.
     cbn [s_op]. change ((b, 1) :: map (fun z => (z, 1)) rest) with (map (fun z : Z => (z, 1)) (b :: rest)).
     rewrite (fold_q Z.sub qsub qsub_int). cbn [fst snd]. rewrite canon_one, canon_int_fix; [reflexivity|apply E2; discriminate].
 Qed.
@@ -373,13 +358,8 @@ Definition refutation_witnesses : list (opn * list val) :=
     (OAbs, [VFix (-9223372036854775808)]);                             (* abs of most-negative-fixnum *)
     (ORound Floor, [VFix (-7); VFix (-2)]);                            (* floor, negative divisor *)
     (ORound Floor, [VFix 7; VFix (-2)]);
-    (OSub, [VBig B; VFix 1]);                                          (* result written into operand 0 *)
-    (OSub, [VBig B]);                                                  (* negation in place *)
     (OSub, [VBig B; VBig (B - 5)]);                                    (* small result stays a bignum *)
-    (ODiv, [VRat 1 2; VFix 2]);                                        (* ratio operand overwritten *)
     (ODiv, [VRat 1 2; VRat 1 2]);                                      (* integer-valued ratio not demoted *)
-    (OInc, [VRat 1 2]);                                                (* 1+ writes into its ratio operand *)
-    (ORound Round, [VBig (- B); VFix 3]);                              (* round takes |.| of its operand in place *)
     (OAdd, [VBig B; VRat 1 2]);                                        (* bignum + ratio goes through floats *)
     (OGcd, [VBig B; VFix 10]);                                         (* gcd rejects bignums *)
     (ORem, [VFix 5; VFix 0]);                                          (* rem by zero: Go runtime fault *)
